@@ -11,6 +11,7 @@ not know (new API) is only noted -- except for overrides of provided trait metho
 import re
 
 import equiv
+import examined
 
 DERIVE_TRAITS = ('core::clone::Clone', 'core::fmt::Debug', 'core::cmp::PartialEq', 'core::cmp::Eq', 'core::hash::Hash', 'core::cmp::PartialOrd',
                  'core::cmp::Ord', 'core::marker::Copy', 'core::marker::StructuralPartialEq', 'core::default::Default')
@@ -71,10 +72,15 @@ def library_bodies(facts):
 
 def check_uncovered(run, prop, loader, configs=('std-debug',)):
     evaluated = {fn for r, fn, _, _ in run.instances if not NOT_SPECIFIC.search(r)}
+    inlined = set(examined.INLINED)
     for cfg in configs:
         facts = loader.cache.get(cfg) or loader(cfg, optional=(cfg == 'nostd'))
         if facts is None:
             continue
+        # private helpers a rule interpreted as part of the function it is about (examined.py)
+        helpers = {p for p in inlined if (facts.body(p) or {}).get('pub') is False}
+        run.analysed['coverage.inlined-private-helpers:%s' % cfg] = len(helpers - evaluated)
+        evaluated = evaluated | helpers
         ref = equiv.reference(cfg)
         n = new = 0
         for p, b in sorted(library_bodies(facts)):
@@ -85,7 +91,13 @@ def check_uncovered(run, prop, loader, configs=('std-debug',)):
                 new += 1
                 continue
             n += 1
-            ok, why = equiv.equivalent(r, equiv.summarize(facts, p))
+            # callees that are not inlined (recursion, depth) are vouched for separately: each is examined by a rule of its
+            # own property or compared with the reference right here
+            ok, why = equiv.equivalent(r, equiv.summarize(facts, p), trust_callees=True)
+            if not ok and (ref.get('#shallow') or {}).get(p) is not None:
+                # compositional: the function's own body is what it was, and what it calls is vouched for separately
+                ok2, _ = equiv.equivalent(ref['#shallow'][p], equiv.summarize(facts, p, shallow=True), trust_callees=True)
+                ok = ok2
             if ok:
                 run.ok('coverage.reference', p, cfg, nontrivial=False)
             else:
